@@ -1,6 +1,7 @@
 import CuriesVerif.Program
 import CuriesVerif.Spec.Answer
 import CuriesVerif.Spec.Reconcile
+import CuriesVerif.Spec.Add
 
 /-!
 # Spec verdict on observed histories
@@ -125,14 +126,7 @@ def checkAdd (idx : Nat) (fold : Str → Str) (o : SlotObs) (what : String) (r :
     | .err e => [s!"step {idx}: {what} raised {e.name}, expected ValueError or success"]
     | _ => []
 
-/-- the records `add_record` leaves behind (C05), computed on the records observed before the call: appended when
-nothing matches, merged into the single match when `merge` is set; a rejected call leaves the records as they
-were.  `none`: the call must be rejected. -/
-def expectedAfterAdd (fold : Str → Str) (recs : List Record) (r : Record) (cs merge : Bool) : Option (List Record) :=
-  match recs.filter fun x => matchesRec fold cs r x with
-  | [] => some (recs ++ [r])
-  | [x] => if merge then some (recs.map fun y => if y = x then r.mergeInto x else y) else none
-  | _ => none
+abbrev expectedAfterAdd := @Spec.afterAdd
 
 /-- what the next reading of the records must show after an `add_record` / `add_prefix` call -/
 def expectAfterAdd (fold : Str → Str) (o : SlotObs) (r : Record) (cs merge : Bool) (obs : Val) : Option (List Record) :=
@@ -161,6 +155,24 @@ def checkStep (fold : Str → Str) (idx : Nat) (t : SlotTable) (st : Step) (obs 
       | _ => []
     (t.put { slot := dst, derived := (t.get src).recs.map fun b => .remapUri b rm }, errs)
   | .rewire dst src rm => (t.put { slot := dst, derived := (t.get src).recs.map fun b => .rewire b rm }, [])
+  | .chain dst srcs cs =>
+    -- C09: the result is a function of the inputs' record lists (`Spec.chainRecords`, `C09_chain_refines`)
+    let inputs := srcs.map fun i => (t.get i).recs
+    if srcs.isEmpty || !inputs.all (fun o => match o with | some l => Spec.unique l && l.all Spec.recOK | none => false) then
+      (t.put { slot := dst }, [])
+    else
+      let want := Spec.chainRecords fold cs (inputs.map fun o => o.getD [])
+      match want, obs with
+      | some l, .none => (t.put { slot := dst, expect := some l }, [])
+      | none, .none => (t.put { slot := dst }, [s!"step {idx}: chain accepted inputs that must be rejected (a record bridges two earlier records)"])
+      | some _, .err _ => (t.put { slot := dst }, [s!"step {idx}: chain rejected inputs it must accept"])
+      | _, _ => (t.put { slot := dst }, [])
+  | .sub dst src prefixes =>
+    -- C09: the restriction holds exactly the records one of whose CURIE prefixes is requested (`C09_sub_refines`)
+    match (t.get src).recs, obs with
+    | some l, .none =>
+      (t.put { slot := dst, expect := if Spec.unique l then some (Spec.subRecords l prefixes) else none }, [])
+    | _, _ => (t.put { slot := dst }, [])
   | .clone dst src =>
     -- a copy holds what the original holds: what was observed of the original is expected of the copy
     (t.put { t.get src with slot := dst }, [])
